@@ -117,6 +117,9 @@ type ClientSpec struct {
 	// (Authn) and publishes its keys at jwks_uri (JwksURI) instead of inline
 	Authn   string `json:",omitempty"`
 	JwksURI bool   `json:",omitempty"`
+	// authorization_data_types (RFC 9396): registered iff DetailTypesSet (then possibly empty); otherwise nil = any type
+	DetailTypesSet bool     `json:",omitempty"`
+	DetailTypes    []string `json:",omitempty"`
 }
 
 var grantCoq = map[string]string{
@@ -133,10 +136,14 @@ func (c ClientSpec) coq() string {
 	if c.CibaMode == "ping" || c.CibaMode == "push" {
 		ep = notifEP(c.ID)
 	}
-	return fmt.Sprintf("(mkClient %d %s %s %s %s %s %s %s %s %s %s %s %s %s %s %s)",
+	dt := "None"
+	if c.DetailTypesSet {
+		dt = "(Some " + cList(c.DetailTypes, cS) + ")"
+	}
+	return fmt.Sprintf("(mkClient %d %s %s %s %s %s %s %s %s %s %s %s %s %s %s %s %s)",
 		c.ID, cB(c.Public), cList(c.Grants, func(g string) string { return grantCoq[g] }),
 		cList(c.RespTypes, cS), cList(c.Redirects, cS), cS(c.Scopes), mode, cB(c.ParReq), cB(c.JarReq),
-		cB(c.JWT), cB(c.Pairwise), cB(c.DpopReq), cB(c.TLSReq), cB(c.JarmAlg), cN(ep), cB(c.UserCode))
+		cB(c.JWT), cB(c.Pairwise), cB(c.DpopReq), cB(c.TLSReq), cB(c.JarmAlg), cN(ep), cB(c.UserCode), dt)
 }
 
 // ---- options ----
@@ -146,6 +153,7 @@ type Opt struct {
 	S       string
 	L       []string
 	Scopes  []Scope
+	Cmp     string `json:",omitempty"` // WithAuthorizationDetails: which CompareAuthDetailsFunc the world installs (Types.v details_cmp)
 }
 
 func (o Opt) coq() string {
@@ -167,6 +175,9 @@ func (o Opt) coq() string {
 	case "WithResourceIndicators", "WithResourceIndicatorsRequired":
 		// S: the mandatory first resource, L: the others
 		return fmt.Sprintf("%s %s %s", o.Name, cS(o.S), cList(o.L, cS))
+	case "WithAuthorizationDetails":
+		// Cmp: the compare function, S: the mandatory first type, L: the others
+		return fmt.Sprintf("WithAuthorizationDetails %s %s %s", authdCmpName(o.Cmp), cS(o.S), cList(o.L, cS))
 	}
 	return o.Name
 }
@@ -197,12 +208,15 @@ type Params struct {
 	NotifToken Handle
 	UserCode   string
 	Resources  []string `json:",omitempty"` // `resource` parameters (RFC 8707)
+	// `authorization_details` (RFC 9396): sent iff non-empty or AuthDetailsEmpty (then as `[]`)
+	AuthDetails      []Detail `json:",omitempty"`
+	AuthDetailsEmpty bool     `json:",omitempty"`
 }
 
 func (p Params) coq() string {
-	return fmt.Sprintf("(mkParams %s %s %s %s %s %s %s %s %s %s %s %s %s %s)", cN(p.RequestURI), cS(p.Redirect), cS(p.RespMode),
+	return fmt.Sprintf("(mkParams %s %s %s %s %s %s %s %s %s %s %s %s %s %s %s)", cN(p.RequestURI), cS(p.Redirect), cS(p.RespMode),
 		cS(p.RespType), cS(p.Scopes), cS(p.State), cS(p.Nonce), p.Challenge.coq(), cS(p.Method), cN(p.DpopJkt),
-		cS(p.LoginHint), cN(p.NotifToken), cS(p.UserCode), cList(p.Resources, cS))
+		cS(p.LoginHint), cN(p.NotifToken), cS(p.UserCode), cList(p.Resources, cS), optDetailsCoq(p.AuthDetails, p.AuthDetailsEmpty))
 }
 
 // DPoP proof as the model sees it
@@ -273,12 +287,13 @@ type Pol struct {
 	Granted string
 	Err     string
 	Resources []string `json:",omitempty"` // what the policy passes to GrantResources
+	Details   []Detail `json:",omitempty"` // what the policy passes to GrantAuthorizationDetails
 }
 
 func (p Pol) coq() string {
 	switch p.Kind {
 	case "PolSuccess":
-		return fmt.Sprintf("(PolSuccess %s %s %s)", cS(p.Sub), cS(p.Granted), cList(p.Resources, cS))
+		return fmt.Sprintf("(PolSuccess %s %s %s %s)", cS(p.Sub), cS(p.Granted), cList(p.Resources, cS), cList(p.Details, Detail.coq))
 	case "PolFailWith":
 		return "(PolFailWith " + p.Err + ")"
 	}
@@ -312,6 +327,9 @@ type Op struct {
 	// jwt-bearer: the `assertion` parameter as sent.  "" = absent (AsNone); "ok:<sub>" = the scripted
 	// HandleJWTBearerGrantAssertionFunc answers subject <sub> (AsOk); anything else = it refuses (AsBad)
 	Assertion string `json:",omitempty"`
+	// `authorization_details` of a token request: sent iff non-empty or AuthDetailsEmpty (then as `[]`)
+	AuthDetails      []Detail `json:",omitempty"`
+	AuthDetailsEmpty bool     `json:",omitempty"`
 	// query
 	Tok       PTok
 	Allowed   bool
@@ -322,6 +340,7 @@ type Op struct {
 	Sub     string
 	Granted string
 	GrantedRes []string `json:",omitempty"` // resources the InitBackAuthFunc grants
+	GrantedDetails []Detail `json:",omitempty"` // authorization details the InitBackAuthFunc grants
 	// tick
 	D int
 }
@@ -335,9 +354,9 @@ func (o Op) coq() string {
 	case "Par":
 		return fmt.Sprintf("OpPar (mkPReq %s %s %s)", o.Cred.coq(), o.Params.coq(), o.Bind.coq())
 	case "Token":
-		return fmt.Sprintf("OpToken %s (mkTReq %s %s %s %s %s %s %s %s %s %s %s %s)", grantCoq[o.Grant], o.Cred.coq(), o.Bind.coq(),
+		return fmt.Sprintf("OpToken %s (mkTReq %s %s %s %s %s %s %s %s %s %s %s %s %s)", grantCoq[o.Grant], o.Cred.coq(), o.Bind.coq(),
 			cS(o.Scope), cN(o.Code), cS(o.Redirect), cN(o.Refresh), o.Verifier.coq(), cN(o.AuthReq), o.HG, o.BA, cList(o.Resources, cS),
-			assertionCoq(o.Assertion))
+			assertionCoq(o.Assertion), optDetailsCoq(o.AuthDetails, o.AuthDetailsEmpty))
 	case "Introspect":
 		return fmt.Sprintf("OpIntrospect (mkQReq %s %s %s)", o.Cred.coq(), o.Tok.coq(), cB(o.Allowed))
 	case "Revoke":
@@ -349,7 +368,7 @@ func (o Op) coq() string {
 	case "TokenInfoReq":
 		return fmt.Sprintf("OpTokenInfoReq (mkUReq %s %s %s)", o.Tok.coq(), cB(o.HasHeader), o.Bind.coq())
 	case "BcAuthorize":
-		return fmt.Sprintf("OpBcAuthorize (mkBReq %s %s %s %s %s %s %s)", o.Cred.coq(), o.Params.coq(), o.Bind.coq(), cB(o.InitOK), cS(o.Sub), cS(o.Granted), cList(o.GrantedRes, cS))
+		return fmt.Sprintf("OpBcAuthorize (mkBReq %s %s %s %s %s %s %s %s)", o.Cred.coq(), o.Params.coq(), o.Bind.coq(), cB(o.InitOK), cS(o.Sub), cS(o.Granted), cList(o.GrantedRes, cS), cList(o.GrantedDetails, Detail.coq))
 	case "NotifyOk":
 		return fmt.Sprintf("OpNotifyOk %s %s", cN(o.AuthReq), o.HG)
 	case "NotifyFail":
@@ -375,10 +394,12 @@ func assertionCoq(a string) string {
 type Notif struct {
 	EP, Bearer, AuthReq, At, Rt Handle
 	Err                        bool
+	// authorization_details of a pushed token response, already as a Gallina list ("" = []); a string keeps Notif comparable
+	DetailsCoq string `json:",omitempty"`
 }
 
 func (n Notif) coq() string {
-	return fmt.Sprintf("(mkNotif %s %s %s %s %s %s)", cN(n.EP), cN(n.Bearer), cN(n.AuthReq), cN(n.At), cN(n.Rt), cB(n.Err))
+	return fmt.Sprintf("(mkNotif %s %s %s %s %s %s %s)", cN(n.EP), cN(n.Bearer), cN(n.AuthReq), cN(n.At), cN(n.Rt), cB(n.Err), n.detailsCoq())
 }
 
 type Obs struct {
@@ -391,6 +412,8 @@ type Obs struct {
 	Dpop    bool
 	Res     []string `json:",omitempty"` // tokens: the `resources` member of the response
 	Aud     []string `json:",omitempty"` // tokens: aud claim of a JWT access token; intro: aud
+	Details    []Detail `json:",omitempty"` // tokens: the authorization_details member of the response; intro: authorization_details
+	JwtDetails []Detail `json:",omitempty"` // tokens: the authorization_details claim of a JWT access token
 	// par / ciba / page
 	H        Handle
 	Interval bool
@@ -420,7 +443,8 @@ func (o Obs) coq() string {
 	case "Err":
 		return "Out (OErr " + o.Err + ")"
 	case "Tokens":
-		return fmt.Sprintf("Out (OTokens (mkTResp %s %s %s %s %s %s %s %s %s))", cN(o.At), cN(o.Rt), cB(o.Idt), cS(o.Scope), cB(o.Dpop), cN(o.Jkt), cN(o.X5t), cList(o.Res, cS), cList(o.Aud, cS))
+		return fmt.Sprintf("Out (OTokens (mkTResp %s %s %s %s %s %s %s %s %s %s %s))", cN(o.At), cN(o.Rt), cB(o.Idt), cS(o.Scope), cB(o.Dpop), cN(o.Jkt), cN(o.X5t), cList(o.Res, cS), cList(o.Aud, cS),
+			cList(o.Details, Detail.coq), cList(o.JwtDetails, Detail.coq))
 	case "Par":
 		return "Out (OPar " + cN(o.H) + ")"
 	case "Ciba":
@@ -429,7 +453,7 @@ func (o Obs) coq() string {
 		if !o.Active {
 			return "Out (OIntro inactive)"
 		}
-		return fmt.Sprintf("Out (OIntro (mkIntro true %s %s %d %s %s %s %s 0 %s))", cB(o.Refresh), cS(o.Scope), o.Client, cS(o.Sub), cZ(o.Exp), cN(o.Jkt), cN(o.X5t), cList(o.Aud, cS))
+		return fmt.Sprintf("Out (OIntro (mkIntro true %s %s %d %s %s %s %s 0 %s %s))", cB(o.Refresh), cS(o.Scope), o.Client, cS(o.Sub), cZ(o.Exp), cN(o.Jkt), cN(o.X5t), cList(o.Aud, cS), cList(o.Details, Detail.coq))
 	case "Ok":
 		return "Out OOk"
 	case "UserInfo":
@@ -498,4 +522,39 @@ func (c Case) coq() string {
 	}
 	b.WriteString("])")
 	return b.String()
+}
+
+// ---- RFC 9396 authorization details ----
+// An authorization detail as the model sees it (Types.v adetail): its type and an opaque payload id.
+// Concretely the JSON object {"type": Type, "identifier": "p<ID>", "actions": ["read"]}.
+type Detail struct {
+	Type string
+	ID   int
+}
+
+func (d Detail) coq() string { return fmt.Sprintf("(mkDetail %s %d)", cS(d.Type), d.ID) }
+
+// an opt_details term: None = parameter absent, Some [] = `[]` sent
+func optDetailsCoq(l []Detail, empty bool) string {
+	if len(l) == 0 && !empty {
+		return "None"
+	}
+	return "(Some " + cList(l, Detail.coq) + ")"
+}
+
+func authdCmpName(k string) string {
+	switch k {
+	case "", "CmpSubset":
+		return "CmpSubset"
+	case "CmpNone", "CmpAcceptAll", "CmpTypes":
+		return k
+	}
+	panic("unknown compare function " + k)
+}
+
+func (n Notif) detailsCoq() string {
+	if n.DetailsCoq == "" {
+		return "[]"
+	}
+	return n.DetailsCoq
 }
